@@ -6,6 +6,9 @@
      L <bytes>                                   -> 1 if Effects.loopback_bytes accepts the literal, else 0
      F <filedir> <file path of the URL | N>      -> EffectsSave.file_dict_plan: "-" (nothing written) or "O<open> R<src>:<dst>"
      U <userDictPath>                            -> EffectsSave.user_dict_plan, same format
+     G <home> <cwd> <cfgdir> <datadir> <u> <f> <s>  -> EffectsConfig.parse_render (Config::from_lsp_config's three paths): each
+                                                    setting is A (absent), X (present, not a string) or S<hex> (S- = "");
+                                                    answer "E" (Err) or "<user> <filedir> <stats>" (hex)
    Self-contained (does not use conv_*.ml: the extracted model defines its own type named `string`). *)
 let rec pos_of_int n = if n <= 1 then XH else if n land 1 = 0 then XO (pos_of_int (n lsr 1)) else XI (pos_of_int (n lsr 1))
 let n_of_int n = if n <= 0 then N0 else Npos (pos_of_int n)
@@ -19,6 +22,10 @@ let hex l = if l = [] then "-" else Stdlib.String.concat "" (List.map (fun n -> 
 let plan_line = function
   | None -> "-"
   | Some ((o, s), d) -> Printf.sprintf "O%s R%s:%s" (hex o) (hex s) (hex d)
+let sval w =
+  if w = "A" then SAbsent else if w = "X" then SNotString
+  else SString (unhex (Stdlib.String.sub w 1 (Stdlib.String.length w - 1)))
+let env h c cd dd = { e_home = unhex h; e_cwd = unhex c; e_cfgdir = unhex cd; e_datadir = unhex dd }
 let words l = List.filter (fun w -> w <> "") (Stdlib.String.split_on_char ' ' l)
 let cfg = ref { m_user = []; m_filedir = []; m_stats = []; m_own = [] }
 let judge e = print_endline (string_of_int (int_of_n (run_judge !cfg e)))
@@ -43,6 +50,10 @@ let () =
        | ["F"; d; "N"] -> print_endline (plan_line (file_dict_plan (unhex d) None))
        | ["F"; d; p] -> print_endline (plan_line (file_dict_plan (unhex d) (Some (unhex p))))
        | ["U"; u] -> print_endline (plan_line (Some (user_dict_plan (unhex u))))
+       | ["G"; h; c; cd; dd; u; f; s] ->
+           print_endline (match parse_render (env h c cd dd) (sval u) (sval f) (sval s) with
+             | None -> "E"
+             | Some ((a, b), c) -> Printf.sprintf "%s %s %s" (hex a) (hex b) (hex c))
        | ["L"; b] -> print_endline (if loopback_bytes (unhex b) then "1" else "0")
        | _ -> print_endline "?");
       loop ()
